@@ -15,10 +15,22 @@
     handlers record on the fee gas meter themselves after they succeeded (x/exchange payment flat fees,
     [r_post]); [additional_pre] leaves the last kind out: it is all the mempool check and the router can
     know; [msg_net] what the messages' own coin movements moved.
-    Hypotheses [wf_cfg]/[wf_tx]: basis points are unsigned, the declared fee has no negative amount. *)
+    Hypotheses [wf_cfg]/[wf_tx]: basis points are unsigned, the declared fee has no negative amount.
+
+    Second layer (Fees/TxBlocks.v).  A [chain] is the committed fee configuration [ch_cfg] (schedule,
+    floor gas price, conversion denom, nhash per usd mil - all read from the store at every use)
+    together with the accounts [ch_st].  [brun c0 ops] is the chain after a history of blocks of several
+    transactions ([OBlock]), governance proposals ([OGov]) and direct writes.  [block_trace c max_gas bs]
+    lists, for the transactions of a block that are executed (admitted by the mempool on its running
+    check state, or forced), the state before, the transaction as the ante handler sees it there
+    (signature sequences compared with THAT state, gas phase decided by [gas_phase]), the state after
+    and the result.  [tx_delta] / [tx_charge] / [tx_seq_delta]: what a step does to a balance / charges
+    its payer / does to a sequence number, by its result (ROk: declared fee with its split, RFailed:
+    base fee, RAnteFail: nothing). *)
 From Coq Require Import ZArith NArith List.
 Import ListNotations.
-From PV Require Import Fees.TxFees Proofs.TxFeesProofs.
+From PV Require Import Fees.TxFees Fees.TxBlocks Proofs.TxFeesProofs Proofs.TxBlocksProofs.
+From PV Require Import Corr.C08 Proofs.C08CheckerProofs Proofs.TxAllowProofs.
 Open Scope Z_scope.
 
 (** Once in the mempool and executed: the account the fees come from loses exactly the base fee when the
@@ -102,6 +114,178 @@ Theorem C08_all_histories : forall s0 ops cfg t, wf_cfg cfg -> wf_tx t ->
 Proof. exact history_clauses. Qed.
 Print Assumptions C08_all_histories.
 
+(** Gas.  [gas_phase limit left used g] decides where a transaction runs out of gas from its gas limit,
+    what is left on the block gas meter, the reported consumption and (for calibrated transactions)
+    the measured consumption up to the end of the ante handler [ga] and of the messages [gt]: block gas
+    exhausted before it starts; in the ante handler iff limit < ga; in the messages iff ga <= limit < gt;
+    on the block gas meter between the messages and FeeInvoke iff it would otherwise succeed and its
+    consumption exceeds what is left. *)
+Theorem C08_gas_phase_decided : forall limit left used ga gt,
+  (left <= 0 -> forall g, gas_phase limit left used g = GasBlockFull) /\
+  (0 < left ->
+     (limit < ga -> gas_phase limit left used (GMeasured ga gt) = GasAnte) /\
+     (ga <= limit -> limit < gt -> gas_phase limit left used (GMeasured ga gt) = GasMsgs) /\
+     (ga <= limit -> gt <= limit -> left < Z.min used limit -> gas_phase limit left used (GMeasured ga gt) = GasPost) /\
+     (ga <= limit -> gt <= limit -> Z.min used limit <= left -> gas_phase limit left used (GMeasured ga gt) = GasOk)).
+Proof.
+  intros limit left used ga gt. split; [intros H g; apply gas_phase_block_full; exact H|apply gas_phase_measured].
+Qed.
+Print Assumptions C08_gas_phase_decided.
+
+(** A transaction that runs out of gas pays exactly the base fee - or nothing, and then nothing at all
+    changes, when it fails before the deduction is written: out of gas in the ante handler or block
+    gas exhausted: state unchanged (not even a sequence number); out of gas in the messages or on the
+    block gas meter before FeeInvoke: either the ante handler refused it for another reason (state
+    unchanged) or exactly the base fee moves from the paying account to the fee collector, the signers'
+    sequences advance and nothing else changes.  A transaction succeeds only in phase GasOk. *)
+Theorem C08_out_of_gas_pays_base_fee_or_nothing : forall cfg s t s' r,
+  deliver cfg s t = (s', r) ->
+  (t_gas_out t = GasAnte \/ t_gas_out t = GasBlockFull -> r = RAnteFail /\ s' = s) /\
+  (t_gas_out t = GasMsgs \/ t_gas_out t = GasPost ->
+     (r = RAnteFail /\ s' = s) \/
+     (r = RFailed /\
+      (forall a d, bal s' a d = bal s a d
+                     - ind (N.eqb a (fee_source t)) (amount_of (base_fee cfg (t_gas t)) d)
+                     + ind (N.eqb a collector) (amount_of (base_fee cfg (t_gas t)) d)) /\
+      (forall a, seqn s' a = seqn s a + ind (existsb (N.eqb a) (t_signers t)) 1) /\
+      (forall g p, (g, p) <> (fee_source t, t_payer t) -> allow s' g p = allow s g p))) /\
+  (r = ROk -> t_gas_out t = GasOk).
+Proof. exact deliver_phases_explicit. Qed.
+Print Assumptions C08_out_of_gas_pays_base_fee_or_nothing.
+
+(** Blocks of several transactions, all histories: after any history, in any block of any
+    transactions, every executed transaction obeys the per-transaction clauses against the RUNNING state
+    (the state left by the transactions before it in the same block - so a payer drained or a fee
+    allowance used up by an earlier transaction of the block is what the later one meets), under the
+    configuration stored in the chain state; consecutive steps are chained; every balance after the
+    block is the balance before plus the SUM of the per-transaction closed forms; sequence numbers
+    advance exactly for the signers of transactions that passed the ante handler; the block does not
+    change the configuration. *)
+Theorem C08_block_histories : forall c0 ops max_gas bs,
+  let c := brun c0 ops in
+  let cfg := ch_cfg c in
+  let tr := block_trace c max_gas bs in
+  wf_cfg cfg -> Forall (fun b => wf_tx (b_tx b)) bs ->
+  chained (ch_st c) tr /\
+  Forall (fun e => deliver cfg (ts_pre e) (ts_tx e) = (ts_post e, ts_res e) /\
+                   tx_clauses cfg (ts_pre e) (ts_tx e) (ts_post e) (ts_res e)) tr /\
+  (forall a d, bal (ch_st (fst (run_block c max_gas bs))) a d
+               = bal (ch_st c) a d + zsum (fun e => tx_delta cfg e a d) tr) /\
+  (forall a, seqn (ch_st (fst (run_block c max_gas bs))) a
+             = seqn (ch_st c) a + zsum (fun e => tx_seq_delta e a) tr) /\
+  ch_cfg (fst (run_block c max_gas bs)) = cfg.
+Proof. exact block_history. Qed.
+Print Assumptions C08_block_histories.
+
+(** ... and what the payers of a block are charged in total (declared fee of each success, base fee of
+    each failure) is what the fee collector keeps plus what the recipients get, nothing lost: *)
+Theorem C08_block_charges_conserved : forall cfg accts d tr, NoDup accts ->
+  (forall e ch a, In e tr -> In ch (flat_map (charges cfg) (routed_all (ts_tx e))) -> ch_recipient ch = Some a -> In a accts) ->
+  zsum (fun e => tx_charge cfg e d) tr
+  = zsum (fun e => tx_collector cfg e d) tr + zsum (fun e => tx_recipients cfg accts e d) tr.
+Proof. exact block_charges. Qed.
+Print Assumptions C08_block_charges_conserved.
+
+(** Additional fees are covered, with the params as part of the state: a transaction that succeeds in a
+    block of a history has a declared fee covering the base fee (floor gas price of the chain state) plus
+    every additional fee, custom assessed fees converted with the conversion denom and rate OF THE CHAIN
+    STATE reached by the history; and each of its custom fees is in usd or in that state's conversion
+    denom (any other denom - e.g. a former conversion denom - makes the transaction fail). *)
+Theorem C08_additional_covered_params_in_state : forall c0 ops max_gas bs,
+  let c := brun c0 ops in
+  wf_cfg (ch_cfg c) -> Forall (fun b => wf_tx (b_tx b)) bs ->
+  forall e, In e (block_trace c max_gas bs) -> ts_res e = ROk ->
+  (forall d, amount_of (base_fee (ch_cfg c) (t_gas (ts_tx e))) d + additional (ch_cfg c) (routed_all (ts_tx e)) d
+             <= amount_of (t_fee (ts_tx e)) d) /\
+  (forall r cu, In r (routed_all (ts_tx e)) -> r_custom r = Some cu ->
+     fst (cu_coin cu) = usd_denom (ch_cfg c) \/ fst (cu_coin cu) = conv_denom (ch_cfg c)).
+Proof. exact block_history_covered. Qed.
+Print Assumptions C08_additional_covered_params_in_state.
+
+(** The mempool admits on its running check state, and whatever it admits declares a fee covering the
+    base fee plus the additional fees of its top-level messages under the committed configuration. *)
+Theorem C08_mempool_admits_only_covered : forall cfg bs, wf_cfg cfg -> Forall (fun b => wf_tx (b_tx b)) bs ->
+  forall cs k b, nth_error bs k = Some b -> nth_error (mempool cfg cs bs) k = Some true ->
+  forall d, amount_of (base_fee cfg (t_gas (b_tx b))) d + additional_pre cfg (routed_top (b_tx b)) d
+            <= amount_of (t_fee (b_tx b)) d.
+Proof. exact mempool_admitted_covered. Qed.
+Print Assumptions C08_mempool_admits_only_covered.
+
+(** What does not roll back, does not exist: a proposal that is rejected, or whose messages do not ALL
+    succeed, leaves the chain exactly as it was - fee schedule, params, every balance - and any later
+    block runs exactly as it would have without the proposal (the schedule consulted is the committed
+    one); a failed (or refused) transaction leaves the balance of everybody but the fee source and the
+    fee collector as it was; and over histories the configuration changes only by a direct write or by a
+    proposal that passes as a whole. *)
+Theorem C08_failure_rolls_back_schedule_and_recipients :
+  (forall c v ms, snd (gov_exec c v ms) = false ->
+     fst (bstep c (OGov v ms)) = c /\
+     forall max_gas bs, run_block (fst (bstep c (OGov v ms))) max_gas bs = run_block c max_gas bs) /\
+  (forall cfg e, tx_clauses cfg (ts_pre e) (ts_tx e) (ts_post e) (ts_res e) -> ts_res e <> ROk ->
+     forall a d, a <> fee_source (ts_tx e) -> a <> collector -> bal (ts_post e) a d = bal (ts_pre e) a d) /\
+  (forall c o, ch_cfg (fst (bstep c o)) = ch_cfg c \/ (exists cfg, o = OSetCfg cfg) \/
+               (exists v ms, o = OGov v ms /\ snd (gov_exec c v ms) = true)).
+Proof.
+  split; [|split].
+  - intros c v ms H. split; [apply gov_failed_step; exact H|intros; apply gov_failed_block; exact H].
+  - exact failed_tx_third_parties.
+  - exact bstep_cfg.
+Qed.
+Print Assumptions C08_failure_rolls_back_schedule_and_recipients.
+
+(** Messages executed by governance are not part of any transaction and pay no message fee, whatever the
+    schedule says about their type: a passed proposal moves exactly the coins of its own bank sends
+    (nothing to the fee collector, nothing to fee recipients), no sequence number and no fee allowance. *)
+Theorem C08_gov_executed_messages_pay_no_fee : forall c v ms, snd (gov_exec c v ms) = true ->
+  let c' := fst (bstep c (OGov v ms)) in
+  gov_msgs c ms = Some c' /\
+  (forall a d, bal (ch_st c') a d = bal (ch_st c) a d + credit_of (gov_moves ms) a d - debit_of (gov_moves ms) a d) /\
+  seqn (ch_st c') = seqn (ch_st c) /\ allow (ch_st c') = allow (ch_st c).
+Proof. exact gov_passed_state. Qed.
+Print Assumptions C08_gov_executed_messages_pay_no_fee.
+
+(** Fee allowances are spent exactly.  [names_granter t]: the transaction names a fee granter other than
+    its payer.  [allow_after before fee after]: [before] had no spend limit and [after] is the same, or
+    its limit covered [fee] in every denom and [after] is the limit minus [fee] in every denom - deleted
+    exactly when nothing is left; there is no [after] for an absent allowance.
+    [grant_effect t s s' fee]: if [t] names a granter, the allowance (granter, payer) went from its value
+    in [s] to its value in [s'] by [allow_after ... fee ...]; otherwise no allowance changed at all.
+    A failed transaction spends exactly the base fee from the allowance it names, a successful one
+    exactly the declared fee (the ante handler's and FeeInvoke's two uses add up), a refused one
+    nothing; and this holds for every executed transaction of every block against the running state -
+    so the second transaction of a block that names an allowance used up by the first is refused. *)
+Theorem C08_allowance_spent_exactly :
+  (forall cfg s t s' r, deliver cfg s t = (s', r) ->
+     (r = RFailed -> grant_effect t s s' (base_fee cfg (t_gas t))) /\
+     (r = ROk -> grant_effect t s s' (t_fee t))) /\
+  (forall cfg bs s left,
+     Forall (fun e => (ts_res e = RFailed -> grant_effect (ts_tx e) (ts_pre e) (ts_post e) (base_fee cfg (t_gas (ts_tx e)))) /\
+                      (ts_res e = ROk -> grant_effect (ts_tx e) (ts_pre e) (ts_post e) (t_fee (ts_tx e))) /\
+                      (ts_res e = RAnteFail -> ts_post e = ts_pre e))
+            (trace cfg s left bs)).
+Proof. split; [exact deliver_allowance|exact trace_allowance]. Qed.
+Print Assumptions C08_allowance_spent_exactly.
+
+(** The executable block checker of Corr/C08.v is sound on the model for balances and sequence numbers:
+    run on the model's own block, under the classification read off the model's results, the state the
+    checker expects has exactly the model's balances and sequences after the block - so a failure of
+    "prop:state after the block is not the sum of the per-transaction charges" caused by a balance or a
+    sequence is a behaviour the model cannot show.
+    PARTIAL.  Full statement (not proved): for the same data,
+      state_agree u (expect u cfg s (offered bs xs) ks) (end_state s tr) = true
+      /\ In ks (assignments (offered bs xs) true).
+    Missing: the fee-allowance component (a closed form of two successive [use_grant]s equal to the
+    checker's [spent_allow] on the universe's denoms) and that the model never refuses the block's first
+    transaction in the ante handler after admitting it on the same state (needs 0 < max_gas). *)
+Theorem C08_block_checker_sound_partial : forall u cfg bs, wf_cfg cfg -> wf_btxs bs ->
+  forall s left xs, length xs = length bs ->
+  let tr := trace cfg s left bs in
+  let ks := map cls_of (results bs tr) in
+  (forall a d, bal (expect u cfg s (offered bs xs) ks) a d = bal (end_state s tr) a d) /\
+  (forall a, seqn (expect u cfg s (offered bs xs) ks) a = seqn (end_state s tr) a).
+Proof. exact block_checker_sound_partial. Qed.
+Print Assumptions C08_block_checker_sound_partial.
+
 (** Non-vacuity: a concrete transaction (authz MsgExec of account 1 wrapping a MsgSend, fee granted by
     account 2 with a spend limit; MsgSend costs 800 of denom 1 with 33.33 % to account 3, MsgExec costs
     10 of denom 2) is admitted and succeeds with exactly the stated movements; the same transaction
@@ -140,3 +324,78 @@ Proof.
     repeat constructor.
   - vm_compute. repeat split.
 Qed.
+
+(** Non-vacuity of the block layer: three transactions in one block under [ex_cfg].  The first
+    (account 1) sends 590,000 of denom 1 away and pays 400,800; the second, also of account 1 and
+    admitted to the mempool while account 1 still had 600,000 in the check state, meets 9,200 in the
+    block, is refused by the ante handler and changes nothing (account 1's sequence advances once, not
+    twice); the third (account 5) succeeds.  A proposal whose second message fails leaves the schedule
+    alone; one that moves the conversion denom to denom 2 makes a custom fee of 3 usd cost 75 of denom 2. *)
+Definition ex_chain : chain :=
+  {| ch_cfg := ex_cfg;
+     ch_st := {| bal := fun a _ => if N.eqb a 0 then 0 else 1000000; seqn := fun _ => 0; allow := fun _ _ => None |} |}.
+Definition ex_plain (ty : mtype) : tmsg :=
+  {| m_top := {| r_type := ty; r_custom := None; r_action := ANop true; r_post := [] |}; m_nested := [] |}.
+Definition ex_btx (payer : acct) (sq : Z) (fee : coins) (msgs : list tmsg) : btx :=
+  {| b_tx := {| t_fee := fee; t_gas := 200000; t_payer := payer; t_granter := None; t_signers := [payer];
+                t_msgs := msgs; t_sig_ok := true; t_gas_out := GasOk |};
+     b_sigseq := [(payer, sq)]; b_gas := GObserved GasOk; b_used := 90000; b_forced := false |}.
+Definition ex_block : list btx :=
+  [ ex_btx 1%N 0 [(1%N, 400800)]
+      [ {| m_top := {| r_type := 1%N; r_custom := None; r_action := ASend 1%N 4%N [(1%N, 590000)]; r_post := [] |}; m_nested := [] |} ];
+    ex_btx 1%N 1 [(1%N, 400000)] [ex_plain 9%N];
+    ex_btx 5%N 0 [(1%N, 400000)] [ex_plain 9%N] ].
+Definition ex_usd_tx : btx :=
+  ex_btx 5%N 0 [(1%N, 400075); (2%N, 75)]
+    [ {| m_top := {| r_type := 3%N; r_custom := Some {| cu_coin := (4%N, 3); cu_recipient := Some 6%N; cu_bips := None |};
+                     r_action := ANop true; r_post := [] |}; m_nested := [] |} ].
+
+Example C08_block_witness :
+  mempool (ch_cfg ex_chain) (ch_st ex_chain) ex_block = [true; true; true] /\
+  (let '(c', rs) := run_block ex_chain 60000000 ex_block in
+   rs = [ROk; RAnteFail; ROk] /\
+   bal (ch_st c') 1%N 1%N = 9200 /\ seqn (ch_st c') 1%N = 1 /\ seqn (ch_st c') 5%N = 1 /\
+   bal (ch_st c') 3%N 1%N = 1000000 + 266 /\ bal (ch_st c') 0%N 1%N = 400800 - 266 + 400000 /\
+   zsum (fun e => tx_charge ex_cfg e 1%N) (block_trace ex_chain 60000000 ex_block) = 800800) /\
+  (* four such transactions (each reports 90,000 gas used) when the block gas limit is 250,000: the
+     third finds 70,000 left and fails on the block gas meter before FeeInvoke, the fourth is not run *)
+  snd (run_block ex_chain 250000 [ex_btx 2%N 0 [(1%N, 400000)] [ex_plain 9%N]; ex_btx 3%N 0 [(1%N, 400000)] [ex_plain 9%N];
+                                  ex_btx 5%N 0 [(1%N, 400000)] [ex_plain 9%N]; ex_btx 6%N 0 [(1%N, 400000)] [ex_plain 9%N]])
+    = [ROk; ROk; RFailed; RAnteFail] /\
+  gov_exec ex_chain true [GAddFee 9%N (1%N, 5) None None; GRemoveFee 77%N] = (ex_chain, false) /\
+  (let '(c', ok) := gov_exec ex_chain true [GConvDenom 2%N] in
+   ok = true /\ conv_denom (ch_cfg c') = 2%N /\
+   (let '(c'', rs) := run_block c' 60000000 [ex_usd_tx] in
+    rs = [ROk] /\ bal (ch_st c'') 6%N 2%N = 1000000 + 75 /\ bal (ch_st c'') 5%N 2%N = 1000000 - 75) /\
+   snd (run_block ex_chain 60000000 [ex_usd_tx]) = [ROk] /\
+   bal (ch_st (fst (run_block ex_chain 60000000 [ex_usd_tx]))) 6%N 1%N = 1000000 + 75).
+Proof. vm_compute. repeat split. Qed.
+
+(** Non-vacuity of the allowance clause inside a block: account 2 grants account 1 a spend limit;
+    account 1 offers two transactions declaring 400,100 (base fee 400,000) that name the grant. *)
+Definition ex_granted (fee sq : Z) : btx :=
+  {| b_tx := {| t_fee := [(1%N, fee)]; t_gas := 200000; t_payer := 1%N; t_granter := Some 2%N; t_signers := [1%N];
+                t_msgs := [ex_plain 9%N]; t_sig_ok := true; t_gas_out := GasOk |};
+     b_sigseq := [(1%N, sq)]; b_gas := GObserved GasOk; b_used := 90000; b_forced := false |}.
+Definition ex_chain_grant (lim : Z) : chain :=
+  {| ch_cfg := ex_cfg;
+     ch_st := {| bal := fun a _ => if N.eqb a 0 then 0 else 1000000; seqn := fun _ => 0;
+                 allow := fun g p => if (N.eqb g 2 && N.eqb p 1)%bool then Some (Some [(1%N, lim)]) else None |} |}.
+Definition ex_forced (b : btx) : btx :=
+  {| b_tx := b_tx b; b_sigseq := b_sigseq b; b_gas := b_gas b; b_used := b_used b; b_forced := true |}.
+
+Example C08_grant_witness :
+  (* allowance = the first transaction's declared fee: the second is not admitted; forced into the block it
+     is refused by the ante handler (grant used up and deleted by the first) and changes nothing *)
+  mempool ex_cfg (ch_st (ex_chain_grant 400100)) [ex_granted 400100 0; ex_granted 400100 1] = [true; false] /\
+  (let '(c', rs) := run_block (ex_chain_grant 400100) 60000000 [ex_granted 400100 0; ex_forced (ex_granted 400100 1)] in
+   rs = [ROk; RAnteFail] /\ allow (ch_st c') 2%N 1%N = None /\ bal (ch_st c') 2%N 1%N = 1000000 - 400100 /\ seqn (ch_st c') 1%N = 1) /\
+  (* allowance = both declared fees: both admitted on the running check state, both succeed, nothing left *)
+  mempool ex_cfg (ch_st (ex_chain_grant 800200)) [ex_granted 400100 0; ex_granted 400100 1] = [true; true] /\
+  (let '(c', rs) := run_block (ex_chain_grant 800200) 60000000 [ex_granted 400100 0; ex_granted 400100 1] in
+   rs = [ROk; ROk] /\ allow (ch_st c') 2%N 1%N = None /\ bal (ch_st c') 2%N 1%N = 1000000 - 800200 /\ bal (ch_st c') 1%N 1%N = 1000000) /\
+  (* a declared fee equal to the base fee that uses the allowance up in the ante handler: FeeInvoke finds
+     no grant any more, the transaction fails and the granter has paid the base fee *)
+  (let '(c', rs) := run_block (ex_chain_grant 400000) 60000000 [ex_granted 400000 0] in
+   rs = [RFailed] /\ allow (ch_st c') 2%N 1%N = None /\ bal (ch_st c') 2%N 1%N = 600000 /\ seqn (ch_st c') 1%N = 1).
+Proof. vm_compute. repeat split. Qed.
